@@ -36,6 +36,7 @@ type witness struct {
 	Pkg      string   `json:"pkg"`
 	Harness  string   `json:"harness"`
 	Params   []string `json:"params"`
+	ParamsQ  []string `json:"params_quoted"`
 	Values   []witVal `json:"values"`
 	Choices  []witVal `json:"choices"`
 	Outcome  string   `json:"outcome"`
@@ -116,6 +117,20 @@ func And(a, b bool) bool     { return a && b }
 func Or(a, b bool) bool      { return a || b }
 func And3(a, b, c bool) bool { return a && b && c }
 func Implies(a, b bool) bool { return !a || b }
+
+// IteU8 selects a or b without a branch.
+func IteU8(c bool, a, b byte) byte {
+	if c {
+		return a
+	}
+	return b
+}
+
+// KnownEnd ends the scope of the most recent Known predicate.
+func KnownEnd() {}
+
+// MayDiffer is a discovery aid for building the C01 don't-care table (no-op natively).
+func MayDiffer(label string, x byte) {}
 
 // Split case-splits on the value of x (symbolically); identity natively.
 func Split(x int) int { return x }
@@ -340,7 +355,18 @@ func runOne(file string, w *witness, fn func(args []string)) (res result) {
 		res.Missing = cur.missing
 		cur = nil
 	}()
-	fn(w.Params)
+	params := w.Params
+	if len(w.ParamsQ) == len(w.Params) {
+		params = make([]string, len(w.ParamsQ))
+		for i, q := range w.ParamsQ {
+			u, err := strconv.Unquote(q)
+			if err != nil {
+				u = w.Params[i]
+			}
+			params[i] = u
+		}
+	}
+	fn(params)
 	res.Outcome = "done"
 	return
 }
